@@ -94,6 +94,22 @@ func (g *gen) genParts(root *gorm.DB) []part {
 				}
 				return db.Or(cc.query, cc.args...)
 			}})
+		case k == 6 && g.ext && g.r.Bool():
+			// a select list with a computed column over any slot forms (scalars, slices, tuples, sub-queries), '?' and
+			// '@name' mixed, the named arguments in front of, between or behind the positional ones
+			c := g.rawCond(root, 1)
+			q := "c1, (" + c.query.(string) + ") AS z"
+			form := g.r.Intn(3)
+			d := fmt.Sprintf("%s(%q, %s...)", []string{"Select", "Distinct", "Distinct().Select"}[form], q, descArgs(c.args))
+			parts = append(parts, part{kind: "select", desc: d, leaves: c.leaves, apply: func(db *gorm.DB) *gorm.DB {
+				switch form {
+				case 1:
+					return db.Distinct(append([]interface{}{q}, c.args...)...)
+				case 2:
+					return db.Distinct().Select(q, c.args...)
+				}
+				return db.Select(q, c.args...)
+			}})
 		case k == 6:
 			col := g.kcol()
 			l := g.newLeaf(col, core.Pick(g.r, []string{"string", "int", "float", "gvaluer"}))
@@ -141,6 +157,11 @@ func (g *gen) genParts(root *gorm.DB) []part {
 				}
 				return db.Joins("Parent", h)
 			}})
+		case k == 7 && g.ext && g.r.Bool():
+			// a raw join whose ON condition is a template over any slot forms, '?' and '@name' mixed
+			c := g.rawCond(root, 1)
+			q := "JOIN others ON others.tag_id = tags.id AND " + c.query.(string)
+			parts = append(parts, part{kind: "joins", desc: fmt.Sprintf("Joins(%q, %s...)", q, descArgs(c.args)), leaves: c.leaves, apply: func(db *gorm.DB) *gorm.DB { return db.Joins(q, c.args...) }})
 		case k == 7:
 			col := g.kcol()
 			l := g.newLeaf(col, "")
@@ -158,6 +179,21 @@ func (g *gen) genParts(root *gorm.DB) []part {
 			default:
 				parts = append(parts, part{kind: "having", desc: "Group(c2).Having(" + c.desc + ").Group(c3)", leaves: c.leaves, apply: func(db *gorm.DB) *gorm.DB { return db.Group("c2").Having(c.query, c.args...).Group("c3") }})
 			}
+		case k == 9 && g.ext && g.r.Chance(1, 3):
+			// an ORDER BY expression given as a named expression: '@name' and '?' slots in one template
+			col := g.kcol()
+			sl, ls := g.sliceLeaves(col, g.r.Range(1, 3))
+			col2 := g.kcol()
+			l := g.newLeaf(col2, "")
+			q, args := g.mixNamed("FIELD("+col+",?), "+col2+" = ?", []interface{}{sl, l.val})
+			ob := clause.OrderBy{Expression: clause.NamedExpr{SQL: q, Vars: args}}
+			viaClauses := g.r.Bool()
+			parts = append(parts, part{kind: "order", desc: fmt.Sprintf("Order(clause.NamedExpr{%q %s})", q, descArgs(args)), leaves: append(ls, l), apply: func(db *gorm.DB) *gorm.DB {
+				if viaClauses {
+					return db.Clauses(ob)
+				}
+				return db.Order(ob)
+			}})
 		case k == 9:
 			col := g.kcol()
 			sl, ls := g.sliceLeaves(col, g.r.Range(1, 4))
@@ -169,6 +205,35 @@ func (g *gen) genParts(root *gorm.DB) []part {
 				}
 				return db.Order(ob)
 			}})
+		case k == 10 && g.ext && g.r.Chance(2, 3):
+			// a table expression with arguments of its own: a table-valued function written with or without any
+			// space, alias or none, one or two arguments (scalars or slices), or a derived table over a raw
+			// condition. The builder of table expressions knows '?' only.
+			var q string
+			var args []interface{}
+			var ls []*leaf
+			if g.r.Chance(1, 3) {
+				g.noMix = true
+				c := g.rawCond(root, 1)
+				g.noMix = false
+				q, args, ls = "(SELECT * FROM tags WHERE "+c.query.(string)+") AS tags", c.args, c.leaves
+			} else {
+				sep := core.Pick(g.r, []string{",", ", "})
+				var items []string
+				for a, n := 0, g.r.Range(1, 2); a < n; a++ {
+					col := g.kcol()
+					if g.r.Chance(1, 4) {
+						sl, l2 := g.sliceLeaves(col, g.r.Range(1, 3))
+						args, ls = append(args, sl), append(ls, l2...)
+					} else {
+						l := g.newLeaf(col, "")
+						args, ls = append(args, l.val), append(ls, l)
+					}
+					items = append(items, col+sep+"?")
+				}
+				q = "tfn(" + strings.Join(items, sep) + ")" + core.Pick(g.r, []string{"", "", " AS tags", " tags"})
+			}
+			parts = append(parts, part{kind: "table", desc: fmt.Sprintf("Table(%q, %s...)", q, descArgs(args)), leaves: ls, apply: func(db *gorm.DB) *gorm.DB { return db.Table(q, args...) }})
 		case k == 10:
 			sub, ls := g.subQuery(root, 1)
 			parts = append(parts, part{kind: "table", desc: "Table(\"(?) as tags\", <sub-query>)", leaves: ls, apply: func(db *gorm.DB) *gorm.DB { return db.Table("(?) as tags", sub) }})
@@ -459,7 +524,28 @@ func (g *gen) runChainOn(root, db *gorm.DB, parts []part, fin string) (out outco
 			db = db.Raw("SELECT c2 FROM tags WHERE c2 = ? OR c2 = ?", int64(7), int64(8))
 			d = append(d, `Raw("SELECT c2 FROM tags WHERE c2 = ? OR c2 = ?", 7, 8)`)
 		}
-		if g.r.Bool() {
+		if g.ext && g.r.Bool() {
+			// a raw statement over any slot forms, '?' and '@name' mixed (the two fixed slots above come first and
+			// are part of the mixing)
+			c := g.rawCond(root, 1)
+			q := "SELECT c1 FROM tags WHERE "
+			if fin == "Exec" {
+				q = core.Pick(g.r, []string{"UPDATE tags SET c8 = NOT c8 WHERE ", "DELETE FROM tags WHERE "})
+			}
+			q += col + " = ? AND " + col2 + " IN ? AND "
+			q, args := q+c.query.(string), append([]interface{}{l.val, sl}, c.args...)
+			if g.r.Bool() {
+				// (no-op when the condition already spells some of its slots '@name')
+				q, args = g.mixNamed(q, args)
+			}
+			finLeaves = append(finLeaves, c.leaves...)
+			d = append(d, fmt.Sprintf("%s(%q, %s...)", fin, q, descArgs(args)))
+			if fin == "Exec" {
+				res = db.Exec(q, args...)
+			} else {
+				res = db.Raw(q, args...).Scan(&[]Tag{})
+			}
+		} else if g.r.Bool() {
 			q := "SELECT c1 FROM tags WHERE " + col + " = ? AND " + col2 + " IN ?"
 			if fin == "Exec" {
 				q = "UPDATE tags SET c8 = NOT c8 WHERE " + col + " = ? AND " + col2 + " IN ?"
@@ -517,6 +603,7 @@ func run(c *core.Ctx) {
 	}
 	for k := 0; k < 6; k++ {
 		g := newGen(c.R.Fork())
+		g.ext = true
 		root := base.Session(&gorm.Session{})
 		parts := g.genParts(root)
 		fin := core.Pick(g.r, finishers)
